@@ -548,6 +548,13 @@ def o_c09(spec, obs):
 
 
 # ------------------------------------------------------------------------------- sequences / interleavings (C03)
+def _op_args(o):
+    args = [denorm(a) for a in o["args"]]
+    if o.get("remote") is not None:
+        args = [build_remote(o["remote"])] + args
+    return args
+
+
 @kind("api_seq")
 def k_api_seq(spec):
     """ops on one connection (mode seq) or one op per instance interleaved by a scripted scheduler (mode inter)"""
@@ -583,7 +590,7 @@ def k_api_seq(spec):
                         base = sum(len(p["replies"]) for p in ops[:ops.index(o)])
                         dev.nreads = base
                         try:
-                            r = await getattr(api, o["op"])(*[denorm(a) for a in o["args"]])
+                            r = await getattr(api, o["op"])(*_op_args(o))
                             out["results"].append(norm(r))
                         except Exception as e:  # noqa: BLE001
                             out["results"].append(exc_name(e))
@@ -604,7 +611,7 @@ def k_api_seq(spec):
                     for d, a in zip(devs, apis):
                         pending.append(d)
                         await a.connect()
-                    coros = [getattr(a, o["op"])(*[denorm(x) for x in o["args"]]) for a, o in zip(apis, ops)]
+                    coros = [getattr(a, o["op"])(*_op_args(o)) for a, o in zip(apis, ops)]
                     results = [None] * len(coros)
                     live = list(range(len(coros)))
                     sched = list(spec.get("schedule") or [])
@@ -653,8 +660,10 @@ def o_c03(spec, obs):
                 return True, "op %d frame %d carries another timestamp than its login frame" % (i, k)
             if f[40:43] != bytes.fromhex(o["dev_id"]):
                 return True, "op %d frame %d carries device id %s" % (i, k, f[40:43].hex())
-        if "exception" not in (obs["results"][i] if isinstance(obs["results"][i], dict) else {}) and len(fr) != 2 and o["op"] != "control_breeze_device":
-            return True, "op %d wrote %d frames" % (i, len(fr))
+        if "exception" not in (obs["results"][i] if isinstance(obs["results"][i], dict) else {}):
+            lo, hi = (2, 4) if o["op"] == "control_breeze_device" else (2, 2)
+            if not (lo <= len(fr) <= hi):
+                return True, "op %d wrote %d frames" % (i, len(fr))
     return False, "ok"
 
 
